@@ -4,8 +4,11 @@ from vt.pipeline import Query
 CLAIM = ('Real RejectionInfSampler::sampleUniform (one- and two-bound forms) and InformedSampler::heuristicSolnCost against a stub base sampler and '
          'a stub objective with EVERY heuristic table (values k/2, k<=31) for 1-3 start states: the heuristic through a state is the best over '
          'all starts; a successful sample has heuristic cost strictly below the upper bound (and not below the lower bound), within the '
-         'configured number of attempts; failure only after all attempts, none of whose states could still help.')
-OUT = ('the direct path-length sampler (prolate hyperspheroid geometry, Eigen SVD rotation, tgamma/pow measure, multi-focus 1/K acceptance, '
+         'configured number of attempts; failure only after all attempts, none of whose states could still help. '
+         'Direct path-length sampler: real keepSample / numberOfPhsInclusions / isInAnyPhs with the hyperspheroids as environment stubs (every membership pattern of 1-3 PHSs, '
+         'recorded uniform draw): a candidate inside K overlapping hyperspheroids is kept exactly when the draw is below 1/K (always for K = 1), whatever the number of goals - '
+         'the rejection that keeps the density uniform where hyperspheroids overlap.')
+OUT = ('the geometry of the direct path-length sampler (prolate hyperspheroid transform, Eigen SVD rotation, tgamma/pow measure, PHS selection weights, retry loop against the bounds, '
        'uniformity, "no helpful state excluded"), OrderedInfSampler, bounds of the sampled states (base sampler contract)')
 ASSUMPTIONS = ['base sampler, objective heuristic and cost-to-go (absent: identity cost) are environment stubs']
 TUS = ['src/ompl/base/samplers/informed/src/RejectionInfSampler.cpp', 'src/ompl/base/samplers/src/InformedStateSampler.cpp', 'src/ompl/base/src/OptimizationObjective.cpp']
@@ -22,4 +25,9 @@ def queries(tier):
                 if e == 'rejection_two_bounds' and ns == 3 and tier == 'quick': continue
                 qs.append(Query('%s[starts=%d,attempts=%d]' % (e, ns, it), 'C15_informed.cpp', 'harness_' + e, tus=TUS, defines={'NSTART': ns, 'ITERS': it, 'VT_VEC_CAP': 6},
                                 stdmodel=('vec',), unwind=it + 6, timeout=to, checks='none', bound='%d start states, %d attempts, every heuristic table and cost bound' % (ns, it)))
+    from vt.props.common_spaces import RNG_ENV
+    for n in ([1, 2, 3] if tier == 'quick' else [1, 2, 3, 4]):
+        qs.append(Query('direct_keep_sample[phs=%d]' % n, 'C15_direct.cpp', 'harness_keep_sample', tus=['src/ompl/base/samplers/informed/src/PathLengthDirectInfSampler.cpp', 'src/ompl/base/src/OptimizationObjective.cpp'],
+                        defines={'NPHS': n}, cxxflags=RNG_ENV + ('-DVT_RNG_RECORD',), unwind=n + 4, timeout=to, checks='none',
+                        bound='%d hyperspheroids (start/goal pairs), every membership pattern, every uniform draw in [0,1), 1-3 goals' % n))
     return qs
